@@ -19,6 +19,7 @@ mod c14;
 mod c04;
 mod c19;
 mod c15;
+mod c03;
 mod alloc;
 
 #[global_allocator]
@@ -80,6 +81,7 @@ fn run_check(property: &str, tier: &str) -> i32 {
     let deadline: f64 = std::env::var("VERIF_DEADLINE_S").ok().and_then(|s| s.parse().ok()).unwrap_or(if tier == "quick" { 600.0 } else { 6.0 * 3600.0 });
     let mut ex = Explorer::new(ctx.threads, deadline, known_matcher(&known));
     ex.sample_every = 0;
+    if property == "C03" { ex.panic_to_violation = Some(c03::panic_violation); }
     install_panic_hook();
     start_watchdog(&ex, property.to_string());
     let mut scs = pr.scenarios;
